@@ -87,6 +87,7 @@ type adapter[T any] struct {
 	params            rlwe.Parameters
 	rows, n, logN     int // packed rows, matrix dimension (columns), log2(n)
 	maxLevel, maxLvlP int
+	minEvalLevel      int // > 1: products below this level are outside the noise budget (large plaintext modulus)
 	f                 field[T]
 
 	input   func() []T                // the encrypted vector (rows*n distinct values)
@@ -320,6 +321,20 @@ func giantSteps(idx []int) int { return len(idx) + 1 }
 func runLeaf[T any](c *engine.Chooser, a *adapter[T], scName string, cfg *scenarioCfg) {
 	p := choosePlan(c, a, cfg)
 	c.Note("%s", p.describe)
+	if a.minEvalLevel > 1 {
+		lv := p.ctLevel
+		for _, mp := range p.mats {
+			lv = min2(lv, mp.levelQ)
+		}
+		if p.entry == eSeq2 || p.entry == eSeqNew2 {
+			lv-- // the second product runs one level lower
+		}
+		if lv < a.minEvalLevel {
+			c.Skip("noise budget of a product with this plaintext modulus needs a higher level")
+			return
+		}
+		c.Cover("bgv-t", ">2^32")
+	}
 	sigBase := "C12/" + a.scheme + "/" + entryName[p.entry]
 	if cfg.tag != "" {
 		// one signature per special input class (the code path is shared by both schemes and all entry points)
